@@ -309,6 +309,9 @@ def main(tier, seed):
     run.assume("for shipped models the micro-ops are the ones the code reports (port_uops / PortUops); load/store "
                "multipliers (zen1) are taken from a plain-YAML read of the model header and may scale any suffix of "
                "the reported micro-ops")
+    # whole-run traces of `inspect` validated against specs/Osaca.tla (clauses owned by this property)
+    from harness import osaca_run
+    osaca_run.whole_runs(run, "C01", tier, seed, n_quick=24)
     return run.finish()
 
 
